@@ -10,9 +10,11 @@ mod dec;
 mod docs;
 mod evt; mod stk;
 mod ext;
+mod gaps;
 mod json;
 mod model;
 mod proto;
+mod scale;
 mod search;
 mod sut;
 
@@ -52,6 +54,8 @@ fn main() {
         Some("dec-worker") => dec::cmd_worker(&args[1..]),
         Some("run-one") => dec::cmd_run_one(&args[1..]),
         Some("dec-inputs") => dec::cmd_inputs(),
+        // hidden: which v2 run lengths / magnitudes the `codecs_scale` enumeration reaches (see scale.rs)
+        Some("scale-cover") => scale::cmd_cover(&args[1..]),
         Some("replay") => cmd_replay(&args[1..]),
         _ => die(USAGE),
     };
@@ -110,6 +114,11 @@ fn cmd_search(args: &[String]) -> i32 {
         i += 1;
     }
     let target = target.unwrap_or_else(|| die(USAGE));
+    // causal-gap buffer / state-vector sync between replicas with gaps (gaps.rs: gapsync | gap_sv | gap_pending | gap_strict)
+    if gaps::is_target(&target) {
+        let deadline = max_seconds.map(|t| Instant::now() + Duration::from_secs_f64(t.max(0.0)));
+        return gaps::cmd_search(&target, universe, jobs, deadline);
+    }
     // change events (evt.rs: events | evt_keys | evt_seq), sticky indexes (stk.rs: sticky | stk_offset | stk_codec)
     if evt::is_target(&target) || stk::is_target(&target) {
         let deadline = max_seconds.map(|t| Instant::now() + Duration::from_secs_f64(t.max(0.0)));
@@ -200,8 +209,11 @@ fn cmd_replay(args: &[String]) -> i32 {
     if j.get("op").is_none() {
         die("replay: the JSON carries no case (no \"op\" field)");
     }
+    if gaps::owns(&j) {
+        return gaps::cmd_replay(&j).unwrap_or_else(|e| die(&format!("replay: {}", e)));
+    }
     if evt::owns(&j) || stk::owns(&j) {
-        let replay = if evt::owns(&j) { evt::cmd_replay } else { stk::cmd_replay };
+        let replay =if evt::owns(&j) { evt::cmd_replay } else { stk::cmd_replay };
         return replay(&j).unwrap_or_else(|e| die(&format!("replay: {}", e)));
     }
     if ext::owns(&j) {
